@@ -364,6 +364,7 @@ func runC07(c *eng.Ctx) {
 	})
 
 	c.Rule("OWNER", "replica{SetAckIndex}", func() { setAckIndexOwner(c) })
+	c.Rule("PROV", "pkg/queue.fanOutQueue.Sync{min-over-all-groups}", func() { syncRule(c) })
 
 	// ---- 9. every chain that reaches a data flush establishes meta -> index -> data ---------------------------------------------
 	// F42: the identity under which a memory database files its slot ranges in the shard-level index
